@@ -1160,6 +1160,24 @@ func callBuiltin(caller *frame, fn *ssa.Builtin, args []value) value {
 
 	case "ssa:deferstack":
 		return &caller.defers
+
+	case "Slice": // unsafe.Slice(ptr, len): ptr points at a cell of a cell array with at least len cells left
+		p, ok := args[0].(*value)
+		n := int(asInt64(args[1]))
+		if !ok || p == nil {
+			if n == 0 {
+				return []value(nil)
+			}
+			panic(unsupported("unsafe.Slice of a non-cell pointer"))
+		}
+		return unsafe.Slice(p, n)
+
+	case "SliceData": // unsafe.SliceData(s)
+		sl, _ := args[0].([]value)
+		if cap(sl) == 0 {
+			return (*value)(nil)
+		}
+		return &sl[:1][0]
 	}
 
 	panic("unknown built-in: " + fn.Name())
